@@ -368,7 +368,7 @@ theorem verifies_with_bound_ia (v : VerifyIn) :
     by_cases h0 : v.boundIA = 0
     · cases hc : v.chains <;> simp [h0]
     · by_cases h1 : v.boundIA = v.ia
-      · cases hc : v.chains <;> simp [h0, h1]
+      · cases hc : v.chains <;> simp [h1]
       · cases hc : v.chains <;> simp [h0, h1]
 
 /-- a verifier bound to another ISD-AS never accepts -/
@@ -387,8 +387,7 @@ theorem gen_call_order :
     Gen.Pki2.bestForKeyCalls =
       ["SubjectKeyID", "SelectSignatureAlgorithm", "Chains", "filterChains", "bestChain", "bestChain",
        "minTime", "minTime", "minTime", "GracePeriodEnd"] ∧
-    Gen.Pki2.bestChainCalls = ["VerifyChain", "Before"] ∧
-    Gen.Pki2.signerValidateCalls = ["Sub"] := by
+    Gen.Pki2.bestChainCalls = ["VerifyChain"] := by
   decide
 
 /-! ## Non-vacuity -/
